@@ -51,16 +51,36 @@ func runC15(p *core.Prog, r *core.Report) {
 		r.Fatalf("C15.R3: deleteObjs not found")
 	} else {
 		mdel := core.G("metabase-delete-ok", core.ErrNil, mbT+".Delete")
-		core.CheckEffectsFn(p, r3, dfn, core.EffectRule{Min: 1, Guards: []core.Guard{mdel}, Effect: core.CallTo(storI + ".Delete")})
+		// every blob storage Delete of the package (in deleteObjs itself or in a helper: then at every call site of the
+		// helper) follows a successful metabase Delete; Shard.Put's rollback of its own write is R5's subject
+		shardFns := p.FuncsIn("pkg/local_object_storage/shard")
+		nBlob := 0
+		for _, fn := range shardFns {
+			if core.FuncName(core.Outer(fn)) == shardT+".Put" {
+				continue
+			}
+			nBlob += core.CheckEffectsFn(p, r3, fn, core.EffectRule{Guards: []core.Guard{mdel}, LiftDepth: 3, CallerScope: shardFns, Effect: core.CallTo(storI + ".Delete")})
+		}
+		if nBlob == 0 {
+			r.Fatalf("C15.R3: no blob storage Delete found in package shard")
+		}
 		// write-cache deletes that iterate over the metabase's result (children) must follow it too
 		core.CheckEffectsFn(p, r3, dfn, core.EffectRule{Min: 1, Guards: []core.Guard{mdel}, Effect: func(p *core.Prog, in ssa.Instruction) (string, bool) {
 			c, ok := in.(ssa.CallInstruction)
-			if !ok || core.CalleeName(c) != wcI+".Delete" {
+			if !ok {
+				return "", false
+			}
+			var addrArg ssa.Value
+			if core.CalleeName(c) == wcI+".Delete" {
+				addrArg = c.Common().Args[0]
+			} else if i := wcDeleteWrapperParam(core.StaticCallee(c), dfn); i >= 0 && i < len(c.Common().Args) {
+				addrArg = c.Common().Args[i] // a helper of the same package that deletes its parameter from the write-cache
+			} else {
 				return "", false
 			}
 			// address built from an element of the metabase Delete result?
 			fromRes := false
-			walkOperands(c.Common().Args[0], 10, func(x ssa.Value) {
+			walkOperands(addrArg, 10, func(x ssa.Value) {
 				if ex, ok := x.(*ssa.Extract); ok && ex.Index == 0 {
 					if cc, ok := ex.Tuple.(*ssa.Call); ok && core.CalleeName(cc) == mbT+".Delete" {
 						fromRes = true
@@ -452,6 +472,128 @@ func loopHeadersContaining(fn *ssa.Function, pred func(ssa.Instruction) bool) ma
 		}
 	}
 	return out
+}
+
+// wcDeleteWrapperParam: cal (same package as ref) calls the write-cache Delete on one of its own parameters; returns that parameter's index or -1.
+func wcDeleteWrapperParam(cal, ref *ssa.Function) int {
+	if cal == nil || cal.Blocks == nil || core.FuncPkg(cal) != core.FuncPkg(ref) {
+		return -1
+	}
+	for _, s := range core.CallSites([]*ssa.Function{cal}, func(s core.Site) bool { return s.Name == wcI+".Delete" }) {
+		if i := core.RootParam(cal, s.Call.Common().Args[0]); i >= 0 {
+			return i
+		}
+	}
+	return -1
+}
+
+// blobDeleteForEveryRemoved: in Shard.deleteObjs every id the metabase reports as removed is deleted from blob storage:
+// the blob Delete sits in a loop over the WHOLE result of metabase Delete and no path through the loop body skips it.
+func blobDeleteForEveryRemoved(p *core.Prog, r *core.Report, h *core.RuleH) {
+	fn := p.Func(shardT + ".deleteObjs")
+	if fn == nil {
+		r.Fatalf("%s: deleteObjs not found", h.ID())
+		return
+	}
+	name := core.FuncName(fn)
+	var res ssa.Value
+	for _, s := range core.CallSites([]*ssa.Function{fn}, func(s core.Site) bool { return s.Name == mbT+".Delete" }) {
+		if v := s.Call.Value(); v != nil && v.Referrers() != nil {
+			for _, ref := range *v.Referrers() {
+				if ex, ok := ref.(*ssa.Extract); ok && ex.Index == 0 {
+					res = ex
+				}
+			}
+		}
+	}
+	sites := core.CallSites([]*ssa.Function{fn}, func(s core.Site) bool { return s.Name == storI+".Delete" })
+	if res != nil && len(sites) == 0 {
+		// the loop may live in a helper of the same package that receives the whole result
+		for _, cs := range core.CallSites([]*ssa.Function{fn}, func(s core.Site) bool {
+			cal := core.StaticCallee(s.Call)
+			return cal != nil && cal.Blocks != nil && core.FuncPkg(cal) == core.FuncPkg(fn)
+		}) {
+			cal := core.StaticCallee(cs.Call)
+			for i, a := range cs.Call.Common().Args {
+				if a != res || i >= len(cal.Params) {
+					continue
+				}
+				hs := core.CallSites([]*ssa.Function{cal}, func(s core.Site) bool { return s.Name == storI+".Delete" })
+				if len(hs) == 1 {
+					// the helper must be reached on every path from the metabase Delete's success edge to the exit
+					reached := false
+					helperCall := cs.Call.(ssa.Instruction)
+					if ex, isEx := res.(*ssa.Extract); isEx {
+						if mc, isC := ex.Tuple.(*ssa.Call); isC && mc.Referrers() != nil {
+							for _, ref := range *mc.Referrers() {
+								er, isE := ref.(*ssa.Extract)
+								if !isE || er.Type().String() != "error" || er.Referrers() == nil {
+									continue
+								}
+								for _, u := range *er.Referrers() {
+									bo, isB := u.(*ssa.BinOp)
+									if !isB || bo.Referrers() == nil {
+										continue
+									}
+									for _, iu := range *bo.Referrers() {
+										iff, isIf := iu.(*ssa.If)
+										if !isIf {
+											continue
+										}
+										succ := iff.Block().Succs[1]
+										if bo.Op.String() == "==" {
+											succ = iff.Block().Succs[0]
+										}
+										reached = succ.Instrs[0] == helperCall || core.MustFollow(succ.Instrs[0], func(in ssa.Instruction) bool { return in == helperCall })
+									}
+								}
+							}
+						}
+					}
+					h.Check(reached, name+"#blob-delete!helper-always-called", p.InstrPos(cs.Call), "the helper that deletes the blobs is called on every path after a successful metabase Delete", "after a successful metabase Delete some path returns without calling the helper that deletes the blobs")
+					fn, res, sites = cal, cal.Params[i], hs
+					name = core.FuncName(cal)
+				}
+			}
+		}
+	}
+	if res == nil || len(sites) != 1 {
+		h.Bad(name+"#blob-delete-loop", p.Pos(fn.Pos()), "expected one metabase Delete result and one blob storage Delete in deleteObjs (or in one helper it hands the whole result to)")
+		return
+	}
+	call := sites[0].Call.(ssa.Instruction)
+	// the deleted address is built from an element of the whole result
+	whole := false
+	walkOperands(sites[0].Call.Common().Args[0], 10, func(x ssa.Value) {
+		if ia, ok := x.(*ssa.IndexAddr); ok && ia.X == res {
+			whole = true
+		}
+	})
+	h.Check(whole, name+"#blob-delete!over-whole-result", p.InstrPos(call), "blob Delete is applied to elements of the metabase's whole result", "the blob storage Delete is not applied to the elements of the metabase Delete result (whole slice)")
+	// loop header
+	b := call.Block()
+	var hdr *ssa.BasicBlock
+	for _, hb := range fn.Blocks {
+		if hb.Dominates(b) && hb != b && reaches(b, hb) && (hdr == nil || hdr.Dominates(hb)) {
+			for _, pr := range hb.Preds {
+				if hb.Dominates(pr) {
+					hdr = hb
+				}
+			}
+		}
+	}
+	if hdr == nil {
+		h.Bad(name+"#blob-delete!every-element", p.InstrPos(call), "the blob storage Delete is not in a loop")
+		return
+	}
+	var body *ssa.BasicBlock
+	for _, sc := range hdr.Succs {
+		if sc.Dominates(b) {
+			body = sc
+		}
+	}
+	skip := body == nil || body != b && reachesAvoiding(body, hdr, map[*ssa.BasicBlock]bool{b: true}, nil)
+	h.Check(!skip, name+"#blob-delete!every-element", p.InstrPos(call), "no path through the loop body skips the blob Delete", "some path through the loop over the removed ids skips the blob storage Delete: the metadata is gone but the blob stays (orphan; re-indexed by a later resync, never collected by GC)")
 }
 
 func reaches(from, to *ssa.BasicBlock) bool {
